@@ -11,9 +11,9 @@ META = dict(
               "revision graph up to the bound x (stop, onto) x skip_full_merged; every case is materialised as a real "
               "repository (BranchBuilder) and planned by the real generate_simple_plan, the plan goes through the real "
               "plan file of a working tree and the real rebase_todo; TLC judges the recorded plans with the C51 laws",
-    level_text="Exhaustive small scope: all graphs with <= 5 revisions and <= 2 parents (thorough: <= 3 parents, plus "
-               "6-revision graphs with <= 2 parents: all of them on the transcription, a seeded third on real "
-               "repositories) in which every revision is an ancestor of stop or onto. The laws "
+    level_text="Exhaustive small scope: all graphs with <= 5 revisions and <= 2 parents (thorough: <= 3 parents, plus the "
+               "single-root 6-revision graphs with <= 2 parents and stop = newest revision: all on the transcription, a seeded half on "
+               "real repositories) in which every revision is an ancestor of stop or onto. The laws "
                "(key set, ordering of new parents, save/load, todo) are TLA+ operators proved on the transcription and "
                "evaluated by TLC on what the real code returned. The planner only walks ancestries, so small graphs "
                "with merges, criss-crosses and several roots are representative.",
@@ -172,10 +172,12 @@ def run(ctx):
     env.init()
     # (bounds, fraction of the graphs that is replayed on real repositories); TLC checks the laws on the
     # transcription for every case of every table
-    plans = [({"MaxRev": 5, "MaxParents": 2}, 1.0)] if ctx.quick else \
-            [({"MaxRev": 5, "MaxParents": 3}, 1.0), ({"MaxRev": 6, "MaxParents": 2}, 1 / 3)]
+    plans = [({"MaxRev": 5, "MaxParents": 2, "MinRev": 1, "SingleRoot": "FALSE", "StopNewest": "FALSE"}, 1.0)] if ctx.quick else \
+            [({"MaxRev": 5, "MaxParents": 3, "MinRev": 1, "SingleRoot": "FALSE", "StopNewest": "FALSE"}, 1.0),
+             ({"MaxRev": 6, "MaxParents": 2, "MinRev": 6, "SingleRoot": "TRUE", "StopNewest": "TRUE"}, 1 / 2)]
     seen, groups, ncases, chosen = set(), {}, 0, {}
-    wit = ("WitnessSkipped",)          # further witnesses are ASSUMEs inside RebaseGen
+    wit = ("WitnessSkipped", "WitnessUntouched")
+    shapes = {"unrelated": 0, "merge entry": 0, "rewritten root": 0}
     for pi, (consts, frac) in enumerate(plans):
         cases = table.generate(ctx, "RebaseGen", consts, label="RebaseGen %s" % consts, workers=4,
                                witnesses=wit if pi == 0 else ())
@@ -183,6 +185,11 @@ def run(ctx):
             ctx.machinery("RebaseGen produced no cases")
         for k in cases:
             c = k["c"]
+            if k["spec"]["status"] == "unrelated":
+                shapes["unrelated"] += 1
+            else:
+                shapes["merge entry"] += any(len(e["parents"]) > 1 for e in k["spec"]["plan"])
+                shapes["rewritten root"] += any(not c["P"][e["old"] - 1] for e in k["spec"]["plan"])
             key = json.dumps(c, sort_keys=True)
             if key in seen:
                 continue
@@ -197,22 +204,28 @@ def run(ctx):
             g = groups.setdefault(json.dumps(P[:-1]), {})
             g.setdefault(json.dumps(P[-1]), []).append(c)
             ncases += 1
+    for shape, cnt in shapes.items():          # anti-vacuity on the table TLC exported
+        if not cnt:
+            ctx.machinery("vacuity guard: no %s among the expected plans" % shape)
+    ctx.cov["expected_plan_shapes"] = shapes
     items = []
     for pk in sorted(groups):
         exts = []
         for lk in sorted(groups[pk]):
             cs = groups[pk][lk]
             pick = ctx.rng.randrange(len(cs))
-            exts.append((json.loads(lk), [(c, ctx.quick or i % 4 == 0, i == pick or (not ctx.quick and i % 3 == 0))
+            exts.append((json.loads(lk), [(c, i % (2 if ctx.quick else 4) == 0, i == pick or (not ctx.quick and i % 3 == 0))
                                           for i, c in enumerate(cs)]))
         items.append((json.loads(pk), exts))
     ctx.rule("TLC enumerates every graph with <= MaxRev revisions and <= MaxParents ordered parents per revision "
-             "(quick 5/2; thorough 5/3, and 6/2 of which a seeded third of the graphs is replayed), every (stop, onto) such that all revisions are ancestors of stop or onto "
-             "and stop has revisions of its own, x skip_full_merged; each is built as a real 2a repository and planned by "
-             "generate_simple_plan; plans are saved/loaded through RebaseState1 on an on-disk working tree (thorough: "
-             "every 4th, the others through marshall/unmarshall in memory); rebase_todo is asked before and after a "
-             "random-length prefix of the replacement revisions really exists (one case per graph; thorough: + every "
-             "3rd). Non-trivial = plan with > 1 entry or a merge entry")
+             "(quick 5/2; thorough 5/3, and the single-root 6-revision graphs with <= 2 parents with the newest "
+             "revision as stop, of which a seeded half is replayed), every (stop, onto) such that all revisions are "
+             "ancestors of stop or onto and stop has revisions of its own, x skip_full_merged; each is built as a real "
+             "2a repository and planned by generate_simple_plan; plans are saved/loaded through RebaseState1 on an "
+             "on-disk working tree (every 2nd case, thorough every 4th; the others through marshall/unmarshall in "
+             "memory); rebase_todo is asked before and after a random-length prefix of the replacement revisions "
+             "really exists (one case per graph; thorough: + every 3rd). Non-trivial = plan with > 1 entry or a "
+             "merge entry")
     ctx.cov["exhaustive"] = True      # up to 5 revisions; the 6-revision table is exhaustive on the TLC side only
     ctx.cov["graphs"] = sum(len(e) for _p, e in items)
     core.fork_map(ctx, _replay, items)
